@@ -62,7 +62,11 @@ type G struct {
 	must   bool // must finish for the execution to count as terminated
 	steps  int
 	objs   map[*Obj]struct{} // objects touched (only in record mode)
-	shared uint64            // goroutines (dense index < 64) that operate on an object this goroutine also operates on
+	// stutter: the last operation of this goroutine was a receive on a closed, drained channel (a pure read
+	// that changes nothing outside the goroutine) chosen in a select with signature stutterSig
+	stutterSig uint64
+	stutterAlt int32
+	shared     uint64 // goroutines (dense index < 64) that operate on an object this goroutine also operates on
 }
 
 func (g *G) Name() string { return g.name }
@@ -99,6 +103,8 @@ type pend struct {
 	// simple
 	ready func() bool
 	objs  []*Obj
+	code  uint64
+	read  bool // the operation only observes the objects (commutes with other reads)
 	site  string
 }
 
@@ -185,6 +191,7 @@ type World struct {
 	NetPort int
 
 	altbuf []int32
+	eff    effect
 }
 
 // W is the world of the execution in progress (nil outside an execution).
@@ -215,11 +222,11 @@ func mix(a, b uint64) uint64 {
 }
 
 func (w *World) setH(g *G, h uint64) {
-	w.key[0] -= mix(g.id, g.h)
-	w.key[1] -= mix(g.h, g.id^0x5555)
+	a0, a1 := keyTerm(g.id, g.h)
 	g.h = h
-	w.key[0] += mix(g.id, g.h)
-	w.key[1] += mix(g.h, g.id^0x5555)
+	b0, b1 := keyTerm(g.id, g.h)
+	w.key[0] += b0 - a0
+	w.key[1] += b1 - a1
 }
 
 func (w *World) newG(parent *G, name string, f func()) *G {
@@ -242,8 +249,9 @@ func (w *World) newG(parent *G, name string, f func()) *G {
 	g.name = fmt.Sprintf("%s#%d", name, g.idx)
 	g.h = 0
 	w.gs = append(w.gs, g)
-	w.key[0] += mix(g.id, g.h)
-	w.key[1] += mix(g.h, g.id^0x5555)
+	t0, t1 := keyTerm(g.id, g.h)
+	w.key[0] += t0
+	w.key[1] += t1
 	if parent != nil {
 		w.setH(g, mix(parent.h, 0x77))
 	}
@@ -274,7 +282,6 @@ func (w *World) newG(parent *G, name string, f func()) *G {
 		}
 		g.pend = nil
 		g.state = gRunning
-		w.setH(g, mix(g.h, 0x57)) // "started" differs from "not started yet"
 		f()
 		if w.aborted.Load() {
 			return
@@ -356,6 +363,7 @@ func (w *World) yield(p *pend) int32 {
 	}
 	g.state = gRunning
 	g.pend = nil
+	g.stutterSig = 0
 	return alt
 }
 
@@ -463,6 +471,8 @@ func (w *World) schedule(prev *G) (*G, int32) {
 		}
 		w.Trace = append(w.Trace, Event{Step: w.steps, G: g.name, Op: g.pend.describe(alt, w), Site: g.pend.site, Sw: sw})
 	}
+	w.effectOf(g, alt, &w.eff)
+	w.commit(g, &w.eff)
 	g.steps++
 	if w.exploring && prev != nil && prev != g {
 		w.swPairs = append(w.swPairs, [2]int16{int16(prev.idx), int16(g.idx)})
@@ -527,15 +537,13 @@ func StartExploring() {
 // Quiesce parks the caller until no other normal-priority goroutine is enabled.
 func Quiesce() {
 	w := Cur()
-	w.yield(&pend{kind: opQuiesce, name: "quiesce"})
-	w.stepHash(w.cur, 0x9999, nil)
+	w.yield(&pend{kind: opQuiesce, name: "quiesce", code: 0x9999})
 }
 
 // Yield is a plain scheduling point (always enabled).
 func Yield(name string) {
 	w := Cur()
-	w.yield(&pend{kind: opSimple, name: name})
-	w.stepHash(w.cur, 0x4444, nil)
+	w.yield(&pend{kind: opSimple, name: name, code: 0x4444})
 }
 
 // Point is a scheduling point for shim objects (vsync, vnet): the caller parks until ready() holds and
@@ -543,44 +551,13 @@ func Yield(name string) {
 // object state.  objs are the objects the operation depends on (for the canonical trace).
 func Point(name string, code uint64, ready func() bool, objs ...*Obj) {
 	w := Cur()
-	w.yield(&pend{kind: opSimple, name: name, ready: ready, objs: objs})
-	w.stepHash(w.cur, code, objs)
+	w.yield(&pend{kind: opSimple, name: name, ready: ready, objs: objs, code: code})
 }
 
 // PointRead is Point for operations that only observe the objects' state (they commute with each other).
 func PointRead(name string, code uint64, ready func() bool, objs ...*Obj) {
 	w := Cur()
-	w.yield(&pend{kind: opSimple, name: name, ready: ready, objs: objs})
-	w.readHash(w.cur, code, objs)
-}
-
-// stepHash folds an executed operation into the goroutine's history hash and the objects' hashes.
-func (w *World) stepHash(g *G, code uint64, objs []*Obj) {
-	h := mix(g.h, code)
-	for _, o := range objs {
-		if o == nil {
-			continue
-		}
-		h = mix(h, o.last)
-	}
-	w.setH(g, h)
-	for _, o := range objs {
-		if o == nil {
-			continue
-		}
-		o.last = h
-		w.share(g, o)
-		if w.record {
-			if o.users == nil {
-				o.users = map[int]struct{}{}
-			}
-			o.users[g.idx] = struct{}{}
-			if g.objs == nil {
-				g.objs = map[*Obj]struct{}{}
-			}
-			g.objs[o] = struct{}{}
-		}
-	}
+	w.yield(&pend{kind: opSimple, name: name, ready: ready, objs: objs, code: code, read: true})
 }
 
 // share maintains the "operate on a common object" relation between goroutines.
@@ -598,21 +575,6 @@ func (w *World) share(g *G, o *Obj) {
 		g.shared |= o.mask
 		o.mask |= bit
 	}
-}
-
-// readHash folds a read-only operation into the goroutine's history (object hashes are not advanced).
-func (w *World) readHash(g *G, code uint64, objs []*Obj) {
-	h := mix(g.h, code)
-	for _, o := range objs {
-		if o != nil {
-			h = mix(h, o.last)
-			w.share(g, o)
-			if w.record {
-				w.touch(g, o)
-			}
-		}
-	}
-	w.setH(g, h)
 }
 
 // NewObj registers a synchronisation object with the current execution.
